@@ -19,6 +19,7 @@ macro_rules! dispatch {
             "reverse" => $f::<engines::reverse::Reverse>($($args),*),
             "limits" => $f::<engines::limits::Limits>($($args),*),
             "reject" => $f::<engines::reject::Reject>($($args),*),
+            "cursor" => $f::<engines::cursor::Cursor>($($args),*),
             "bitshare" => $f::<engines::bitshare::Bitshare>($($args),*),
             "clones" => $f::<engines::clones::Clones>($($args),*),
             other => {
@@ -29,7 +30,7 @@ macro_rules! dispatch {
     };
 }
 
-const ENGINES: &[&str] = &["drive", "reverse", "limits", "reject", "bitshare", "clones"];
+const ENGINES: &[&str] = &["drive", "reverse", "limits", "reject", "bitshare", "clones", "cursor"];
 
 fn info_of<E: Engine>() -> EngineInfo {
     EngineInfo { name: E::NAME, prop: E::PROP, rule: E::RULE, real: E::REAL, stub: E::STUB }
@@ -40,9 +41,14 @@ fn engine_info(name: &str) -> EngineInfo {
 }
 
 /// which engines decide a property, and how many runs each tier gets
-fn plan_for(prop: &str, tier: Tier) -> Vec<(&'static str, u64)> {
+fn plan_for(prop: &str, tier: Tier) -> Vec<(&'static str, u64, &'static str)> {
     let q = tier == Tier::Quick;
-    match prop {
+    let v: Vec<(&'static str, u64)> = match prop {
+        // run in both build profiles: overflow-checked arithmetic panics where release wraps
+        "C06" => {
+            let n = if q { 60_000 } else { 6_000_000 };
+            return vec![("cursor", n, "release"), ("cursor", n, "checked")];
+        }
         "C15" => vec![("drive", if q { 200_000 } else { 10_000_000 })],
         "C10" => vec![("reject", if q { 60_000 } else { 60_000 })],
         "C04" => vec![("bitshare", if q { 400_000 } else { 40_000_000 })],
@@ -50,7 +56,8 @@ fn plan_for(prop: &str, tier: Tier) -> Vec<(&'static str, u64)> {
         "C14" => vec![("limits", if q { 20_000 } else { 400_000 })],
         "C02" => vec![("reverse", if q { 40_000 } else { 4_000_000 })],
         _ => vec![],
-    }
+    };
+    v.into_iter().map(|(e, n)| (e, n, "release")).collect()
 }
 
 fn level_for(prop: &str, tier: Tier) -> &'static str {
@@ -161,6 +168,27 @@ fn cmd_replay(a: &Args) -> i32 {
     let engine = j.f_str("engine").unwrap_or_default();
     let prop = j.f_str("property").unwrap_or_default();
     let machine = a.flag("--machine");
+    // a case found in the overflow-checked build replays in that build
+    let profile = j.f_str("profile").unwrap_or_else(|_| "release".to_string());
+    if profile != core::profile_name() {
+        let other = supervisor::exe_for(&profile);
+        if !other.exists() {
+            println!("replay error: this case needs the {} build of the simulator ({} missing; run ./check setup)", profile, other.display());
+            return 2;
+        }
+        let mut cmd = std::process::Command::new(other);
+        cmd.arg("replay").arg(&path);
+        if machine {
+            cmd.arg("--machine");
+        }
+        return match cmd.status() {
+            Ok(st) => st.code().unwrap_or(3),
+            Err(e) => {
+                println!("replay error: {}", e);
+                2
+            }
+        };
+    }
     let res = big_stack(move || {
         core::install_panic_hook();
         let name: &str = &engine;
@@ -395,7 +423,7 @@ fn cmd_check(a: &Args) -> i32 {
         println!("  {}", v.detail);
         nviol += 1;
     }
-    for (engine, runs) in plan {
+    for (engine, runs, profile) in plan {
         let runs = a.opt("--runs").and_then(|s| s.parse().ok()).unwrap_or(((runs as f64) * scale).max(1.0) as u64);
         let rp = RunPlan {
             info: engine_info(engine),
@@ -407,8 +435,16 @@ fn cmd_check(a: &Args) -> i32 {
             hang_secs: a.opt("--hang-secs").and_then(|s| s.parse().ok()).unwrap_or(30.0),
             max_secs: a.opt("--max-secs").and_then(|s| s.parse().ok()),
             per_run_log: false,
+            profile: profile.to_string(),
         };
+        if !supervisor::exe_for(profile).exists() {
+            println!("HARNESS-ERROR: the {} build of the simulator is missing ({})", profile, supervisor::exe_for(profile).display());
+            harness_err = true;
+            continue;
+        }
         let r = supervisor::run_engine(&rp);
+        let engine_label = format!("{}[{}]", engine, profile);
+        let engine: &str = &engine_label;
         println!(
             "[{}] {} runs in {:.1}s ({} nontrivial distinct schedules, {} states, {} VM instructions)",
             engine,
@@ -433,7 +469,11 @@ fn cmd_check(a: &Args) -> i32 {
             println!("HARNESS-ERROR: {}", e);
             harness_err = true;
         }
-        reports.push((engine_info(engine), r));
+        let mut info = engine_info(rp.info.name);
+        if profile != "release" {
+            info.name = Box::leak(format!("{}[{}]", rp.info.name, profile).into_boxed_str());
+        }
+        reports.push((info, r));
     }
     write_evidence(&prop, tier, seed, &reports, t0.elapsed().as_secs_f64(), nviol, &known_lines);
     if nviol > 0 {
@@ -472,6 +512,7 @@ fn cmd_selftest(a: &Args) -> i32 {
                 hang_secs: 60.0,
                 max_secs: None,
                 per_run_log: true,
+                profile: "release".to_string(),
             };
             let r = supervisor::run_engine(&rp);
             let mut m = BTreeMap::new();
